@@ -53,6 +53,9 @@ pub enum ReqKind {
   /// 5 bad cursor, 6 aggregation on a non-fast field, 7.. requests whose error
   /// message echoes a long non-ASCII caller string (variant encodes kind, pad, length)
   Search { variant: u8 },
+  /// well-formed search requests with extreme numeric parameters (sizes,
+  /// limits, windows near or at the integer limits, deep nesting)
+  SearchBig { n: u8 },
   Raw { method: String, path: String, content_type: Option<String>, body: String },
 }
 
@@ -266,7 +269,7 @@ fn gen_case(rng: &mut Rng, c24: bool, thorough: bool) -> HttpCase {
     15 + rng.usize(if thorough { 60 } else { 25 })
   };
   for _ in 0..n {
-    let w: [u32; 13] = if c24 { [12, 10, 6, 8, 3, 3, 8, 3, 2, 2, 2, 8, 0] } else { [22, 16, 10, 14, 3, 4, 4, 2, 0, 0, 2, 0, 0] };
+    let w: [u32; 13] = if c24 { [12, 10, 6, 8, 3, 3, 8, 3, 2, 2, 2, 8, 5] } else { [22, 16, 10, 14, 3, 4, 4, 2, 0, 0, 2, 0, 0] };
     let kind = match rng.weighted(&w) {
       0 => ReqKind::Add {
         docs: gen_docs(rng, &ids, &mut ver, true, true),
@@ -301,6 +304,7 @@ fn gen_case(rng: &mut Rng, c24: bool, thorough: bool) -> HttpCase {
       8 => ReqKind::Inspect,
       9 => ReqKind::Healthz,
       10 => ReqKind::Init { bad: false },
+      12 => ReqKind::SearchBig { n: rng.below(28) as u8 },
       _ => {
         let (m, p) = rng
           .pick(&[
@@ -526,6 +530,37 @@ fn build(kind: &ReqKind) -> Built {
         body: body.into_bytes(),
       }
     }
+    ReqKind::SearchBig { n } => {
+      let huge = 10_000_000_000_000u64;
+      let body = match n % 14 {
+        0 => json!({"query": {"type": "match_all"}, "limit": 5, "return_stored": false, "aggs": {"a": {"type": "top_hits", "size": huge}}}),
+        1 => json!({"query": {"type": "match_all"}, "limit": 5, "return_stored": false, "aggs": {"a": {"type": "top_hits", "size": u64::MAX, "from": 1}}}),
+        2 => json!({"query": {"type": "match_all"}, "limit": huge, "return_stored": true}),
+        3 => json!({"query": {"type": "match_all"}, "limit": u64::MAX, "return_stored": false}),
+        4 => json!({"query": {"type": "match_all"}, "limit": 5, "return_stored": false, "aggs": {"a": {"type": "terms", "field": "tag", "size": huge, "shard_size": u64::MAX}}}),
+        5 => json!({"query": {"type": "term", "field": "body", "value": "alpha"}, "limit": 5, "candidate_size": u64::MAX, "return_stored": false}),
+        6 => json!({"query": {"type": "match_all"}, "limit": 5, "return_stored": false, "rescore": {"window_size": u64::MAX, "query": {"type": "match_all"}}}),
+        7 => json!({"query": {"type": "match_all"}, "limit": 5, "return_stored": false, "collapse": {"field": "tag", "inner_hits": {"size": u64::MAX, "from": u64::MAX}}}),
+        8 => json!({"query": {"type": "term", "field": "body", "value": "alpha"}, "limit": 5, "return_stored": true, "highlight": {"fields": {"body": {"fragment_size": u64::MAX, "number_of_fragments": u64::MAX}}}}),
+        9 => json!({"query": {"type": "term", "field": "body", "value": "alpha"}, "limit": 5, "return_stored": false, "execution": "bmw", "bmw_block_size": if n % 28 < 14 { 0u64 } else { u64::MAX }}),
+        10 => json!({"query": {"type": "match_all"}, "limit": 5, "return_stored": false, "aggs": {"a": {"type": "composite", "size": u64::MAX, "sources": [{"type": "terms", "name": "t", "field": "tag"}]}}}),
+        11 => json!({"query": {"type": "term", "field": "body", "value": "alpha"}, "limit": 5, "return_stored": false, "fuzzy": {"max_edits": 2, "prefix_length": 0, "max_expansions": u64::MAX, "min_length": 0}}),
+        12 => json!({"query": {"type": "match_all"}, "limit": 5, "return_stored": false, "cursor": "f".repeat(8000)}),
+        _ => {
+          let mut q = json!({"type": "match_all"});
+          for _ in 0..50 {
+            q = json!({"type": "bool", "must": [q]});
+          }
+          json!({"query": q, "limit": 5, "return_stored": false})
+        }
+      };
+      Built {
+        method: "POST",
+        path: "/search".into(),
+        content_type: json_ct,
+        body: body.to_string().into_bytes(),
+      }
+    }
     ReqKind::Raw { method, path, content_type, body } => Built {
       method: leak(method),
       path: path.clone(),
@@ -628,7 +663,7 @@ fn success_shape_ok(kind: &ReqKind, body: &[u8]) -> bool {
     ReqKind::Stats => v.get("documents").map(|x| x.is_u64()).unwrap_or(false) && v.get("segments").map(|x| x.is_u64()).unwrap_or(false),
     ReqKind::Inspect => v.pointer("/manifest/segments").map(|x| x.is_array()).unwrap_or(false),
     ReqKind::Healthz => v.get("status") == Some(&json!("ok")),
-    ReqKind::Search { .. } => v.get("hits").map(|x| x.is_array()).unwrap_or(false) && v.get("total_hits_estimate").map(|x| x.is_u64()).unwrap_or(false),
+    ReqKind::Search { .. } | ReqKind::SearchBig { .. } => v.get("hits").map(|x| x.is_array()).unwrap_or(false) && v.get("total_hits_estimate").map(|x| x.is_u64()).unwrap_or(false),
     ReqKind::Raw { .. } => true,
   }
 }
@@ -646,6 +681,7 @@ fn kind_name(k: &ReqKind) -> &'static str {
     ReqKind::Inspect => "inspect",
     ReqKind::Healthz => "healthz",
     ReqKind::Search { .. } => "search",
+    ReqKind::SearchBig { .. } => "search_big",
     ReqKind::Raw { .. } => "raw",
   }
 }
@@ -877,6 +913,14 @@ async fn run_async(case: &HttpCase, dir: &Path, stats: &mut Stats) -> RunOut {
             }
           }
         },
+        ReqKind::SearchBig { .. } => {
+          stats.inc("probe.extreme_search_parameters");
+          if initialised {
+            None // 200 or 4xx, never 5xx, never the end of the process
+          } else {
+            Some(("no index -> 404 (or a 4xx for the request itself)", vec![400, 404, 422]))
+          }
+        }
         ReqKind::Commit | ReqKind::Refresh | ReqKind::Compact | ReqKind::Stats | ReqKind::Inspect => {
           if initialised {
             Some(("ok", vec![200]))
@@ -1166,8 +1210,15 @@ async fn run_conc(case: &HttpCase, spec: &ConcSpec, router: &axum::Router, queue
             if st.is_success() {
               HOp::Commit
             } else {
-              out.violations.push(Violation::new(&["C24", "C23"], "unexpected-status", &format!("{}:{}", name, st.as_u16()), case.reqs.len() + i, format!("concurrent {} -> {} `{}`", describe(i), st, body_txt)));
-              HOp::MaybeCommit
+              // (a padded body over the limit is refused with 413 before the handler runs)
+              if clean {
+                out.violations.push(Violation::new(&["C24", "C23"], "unexpected-status", &format!("{}:{}", name, st.as_u16()), case.reqs.len() + i, format!("concurrent {} -> {} `{}`", describe(i), st, body_txt)));
+              }
+              if st.is_server_error() {
+                HOp::MaybeCommit
+              } else {
+                HOp::Nop
+              }
             }
           }
           ReqKind::Search { variant: 0 } if st.is_success() => match contents_from_search(&resp.body) {
@@ -1322,6 +1373,19 @@ impl Engine for HttpEngine {
     gen_case(rng, self.c24, thorough)
   }
   fn execute(&self, case: &HttpCase, wroot: &Path, stats: &mut Stats) -> (Vec<Violation>, Vec<String>) {
+    // breadcrumb: should the process die inside this case (abort, stack
+    // overflow, failed allocation), the parent finds the case here
+    if let Ok(dir) = std::env::var("VERIF_E3_CRUMBS") {
+      let tag = wroot.file_name().map(|s| s.to_string_lossy().to_string()).unwrap_or_else(|| "w".into());
+      let crumb = json!({
+        "engine": self.name(),
+        "property": if self.c24 { "C24" } else { "C23" },
+        "case": serde_json::to_value(case).unwrap_or(Value::Null),
+        "violation": {"class": "server-down", "site": "process-abort", "properties": [if self.c24 { "C24" } else { "C23" }], "step": 0,
+          "detail": "the process serving the requests died (abort, stack overflow or failed allocation) while executing this case"},
+      });
+      let _ = std::fs::write(format!("{}/{}.json", dir, tag), serde_json::to_vec(&crumb).unwrap_or_default());
+    }
     let r = run_case(case, wroot, stats);
     (r.violations, r.trace)
   }
@@ -1459,7 +1523,133 @@ impl Engine for HttpEngine {
   }
 }
 
+/// The engine runs in a child process: a request that takes the whole process
+/// down (abort, stack overflow, failed allocation) must become a reported
+/// violation, not the death of the check. Returns the exit code.
+fn supervise() -> i32 {
+  use std::process::Command;
+  let argv: Vec<String> = std::env::args().skip(1).collect();
+  let exe = match std::env::current_exe() {
+    Ok(e) => e,
+    Err(e) => {
+      eprintln!("harness error: cannot find own executable: {}", e);
+      return 2;
+    }
+  };
+  let crumbs = format!("/dev/shm/verif-e3-crumbs-{}", std::process::id());
+  let _ = std::fs::remove_dir_all(&crumbs);
+  let _ = std::fs::create_dir_all(&crumbs);
+  let run_child_io = |args: &[String], with_crumbs: bool, quiet: bool| -> Option<i32> {
+    let mut c = Command::new(&exe);
+    c.args(args).env("VERIF_E3_CHILD", "1").env("RUST_BACKTRACE", "0");
+    if quiet {
+      c.stdout(std::process::Stdio::null()).stderr(std::process::Stdio::null());
+    }
+    if with_crumbs {
+      c.env("VERIF_E3_CRUMBS", &crumbs);
+    } else {
+      c.env_remove("VERIF_E3_CRUMBS");
+    }
+    match c.status() {
+      Ok(st) => st.code().filter(|c| *c < 128),
+      Err(e) => {
+        eprintln!("harness error: cannot start the engine process: {}", e);
+        Some(2)
+      }
+    }
+  };
+  let run_child = |args: &[String], with_crumbs: bool| -> Option<i32> { run_child_io(args, with_crumbs, false) };
+  let args = parse_args();
+  let code = if let Some(path) = &args.replay {
+    match run_child(&argv, false) {
+      Some(c) => c,
+      None => {
+        let file: Value = std::fs::read(path).ok().and_then(|d| serde_json::from_slice(&d).ok()).unwrap_or(Value::Null);
+        if file.pointer("/violation/site").and_then(|s| s.as_str()) == Some("process-abort") {
+          println!("replay reproduces: property={} class=server-down site=process-abort", args.property);
+          println!("  the process serving the requests died while executing the recorded case");
+          println!("VIOLATION property={} replay={}", args.property, path.display());
+          1
+        } else {
+          eprintln!("harness error: the engine process died while replaying {}", path.display());
+          2
+        }
+      }
+    }
+  } else {
+    match run_child(&argv, true) {
+      Some(c) => c,
+      None => {
+        // the engine process died: which of the cases in flight kills it?
+        let mut culprit: Option<(String, Value)> = None;
+
+        let mut names: Vec<_> = std::fs::read_dir(&crumbs).map(|d| d.filter_map(|e| e.ok()).map(|e| e.path()).collect()).unwrap_or_else(|_| Vec::new());
+        names.sort();
+        for p in names {
+          let a: Vec<String> = vec!["http".into(), "--property".into(), args.property.clone(), "--replay".into(), p.to_string_lossy().to_string()];
+          if run_child_io(&a, false, true).is_none() {
+            if let Some(v) = std::fs::read(&p).ok().and_then(|d| serde_json::from_slice::<Value>(&d).ok()) {
+              culprit = Some((p.to_string_lossy().to_string(), v));
+              break;
+            }
+          }
+        }
+        // delta-debug the culprit, one child process per candidate
+        if let Some((_, v)) = culprit.as_mut() {
+          if let Ok(mut best) = serde_json::from_value::<HttpCase>(v["case"].clone()) {
+            let engine = HttpEngine { c24: args.property == "C24" };
+            let tmp = format!("{}/shrink.json", crumbs);
+            let started = std::time::Instant::now();
+            let mut improved = true;
+            while improved && started.elapsed().as_secs() < 60 {
+              improved = false;
+              for cand in engine.shrink(&best) {
+                if started.elapsed().as_secs() >= 60 {
+                  break;
+                }
+                let mut f = v.clone();
+                f["case"] = serde_json::to_value(&cand).unwrap_or(Value::Null);
+                if std::fs::write(&tmp, serde_json::to_vec(&f).unwrap_or_default()).is_err() {
+                  break;
+                }
+                let a: Vec<String> = vec!["http".into(), "--property".into(), args.property.clone(), "--replay".into(), tmp.clone()];
+                if run_child_io(&a, false, true).is_none() {
+                  best = cand;
+                  improved = true;
+                  break;
+                }
+              }
+            }
+            v["case"] = serde_json::to_value(&best).unwrap_or(Value::Null);
+          }
+        }
+        match culprit {
+          Some((_, mut v)) => {
+            let path = sim::kit::replay_path(&args.property, "server_down_process_abort", args.seed, 0);
+            v["property"] = json!(args.property);
+            v["seed"] = json!(args.seed);
+            sim::kit::write_json(&path, &v);
+            println!("violation: class=server-down site=process-abort step=0");
+            println!("  the process serving the requests died (abort, stack overflow or failed allocation) while executing the recorded case; a live server would be down for every client");
+            println!("VIOLATION property={} replay={}", args.property, path.display());
+            1
+          }
+          None => {
+            eprintln!("harness error: the engine process died, but none of the cases in flight kills a fresh process on its own");
+            2
+          }
+        }
+      }
+    }
+  };
+  let _ = std::fs::remove_dir_all(&crumbs);
+  code
+}
+
 fn main() {
+  if std::env::var("VERIF_E3_CHILD").is_err() {
+    std::process::exit(supervise());
+  }
   std::panic::set_hook(Box::new(|_| {}));
   let args = parse_args();
   let code = match (args.mode.as_str(), args.property.as_str()) {
